@@ -88,7 +88,24 @@ theorem trace_wf (d : Dev) (ops : List Op) (hu : usage d Sys.init ops = true) : 
   exact ⟨_, this, rfl⟩
 
 example : usage ⟨true, 2, 1, [true, false]⟩ Sys.init
-    [.syncOpen true, .deliver, .deliver, .arm, .deliver, .syncOpen true, .deliver, .err, .close] = true := by decide
+    [.syncOpen .failing, .syncOpen .ok, .deliver, .deliver, .arm, .deliver, .open .failing, .open .missing, .syncOpen .ok,
+     .deliver, .err, .close] = true := by decide
+
+/-- **fault_inside_open_link**: the link fails while `get_link_driver()` / `connect()` has not yet returned (reported by
+the driver synchronously or from its own thread): in every state the application sees exactly `connection_requested`
+then `connection_failed`, the object is DISCONNECTED, and — whatever the wrapper state allowed by `usage` — a blocking
+`SyncCrazyflie.open_link` raises in the same operation (it is covered by `trace_wf` / `sync_open_returns`; this is
+the explicit statement).  The error between `connect()` returning and the first packet is `err` in state
+INITIALIZED (`link_error_outputs`). -/
+theorem fault_inside_open_link (s : S) :
+    (openLink .failing s).2 = [.cb .requested, .linkFailed, .cb .failed] ∧
+    (openLink .failing s).1.st = .disc ∧ (openLink .failing s).1.dead = true := by
+  simp [openLink, linkErrorCb_eq, send, emit, andThen, pureS]
+
+theorem sync_open_raises_on_fault_inside_open_link (d : Dev) :
+    (step d Sys.init (.syncOpen .failing)).2 = [.cb .requested, .linkFailed, .cb .failed, .openRaised] ∧
+    (step d Sys.init (.syncOpen .failing)).1.w.waitOpen = false := by
+  constructor <;> rfl
 
 /-- **connected_only_when_tables_complete**: whenever an operation signals `connected`, all `nLog` log entries, all
 `nPar` parameter entries and the extended type of every extended parameter have been received in this attempt. -/
@@ -129,8 +146,8 @@ theorem sync_open_returns (d : Dev) (ops : List Op) (hu : usage d Sys.init ops =
   refine ⟨fun h => ?_, hw.2⟩
   have hp := hw.1 h
   refine ⟨?_, hp⟩
-  rw [← phase_linked hs.core]
-  rcases hp with hp | hp <;> rw [hp] <;> rfl
+  have hlk := phase_linked hs.core
+  rcases hp with hp | hp <;> rw [hp] at hlk <;> simp [Ph.linked] at hlk <;> exact hlk.1
 
 /-- **fault_reaches_disconnected**: a link error (from the driver's thread, in any state) and `close_link` leave
 the object DISCONNECTED without a link, in that one operation. -/
@@ -159,8 +176,8 @@ theorem reconnectable (d : Dev) (ops : List Op) (hu : usage d Sys.init ops = tru
     let s := (run d Sys.init ops).1
     s.c.link = false → s.c.armed = false →
       s.w = { fixD1 := true } ∧
-      (openLink true s.c).1 = { (openLink true S.init).1 with upd := { q := [], locked := false, pat := s.c.upd.pat } } ∧
-      (openLink true s.c).2 = (openLink true S.init).2 := by
+      (openLink .ok s.c).1 = { (openLink .ok S.init).1 with upd := { q := [], locked := false, pat := s.c.upd.pat } } ∧
+      (openLink .ok s.c).2 = (openLink .ok S.init).2 := by
   intro s hl ha
   have hs := (run_sound d ops Sys.init (sinv_init d) hu).1
   have hw := hs.wrap
@@ -168,25 +185,25 @@ theorem reconnectable (d : Dev) (ops : List Op) (hu : usage d Sys.init ops = tru
   exact ⟨wOk_idle _ hw, reopen_eq d _ hs.core hl ha⟩
 
 /-- **handshake_completes** (progress; "in bounded time" as bounded steps; the second half of "can connect again" and of
-"a blocking open returns"): from the state after ANY history in which a link is open and no fault is pending, at most
+"a blocking open returns"): from the state after ANY history in which a live link is open and no fault is pending, at most
 `pot d c + 1` fault-free scheduling rounds (the dispatcher handles a packet, then a worker runs) bring the object to
 the connected stage — `connected` has been signalled (`phase` is `con`/`ful`) — and a blocked
 `SyncCrazyflie.open_link` has returned.  `pot` is explicit: 3 + the table sizes + twice the number of extended
 parameters + 7 at the start of an attempt. -/
 theorem handshake_completes (d : Dev) (ops : List Op) (hu : usage d Sys.init ops = true) :
     let s := (run d Sys.init ops).1
-    s.c.link = true → s.c.armed = false →
+    s.c.link = true → s.c.dead = false → s.c.armed = false →
       ∃ n, n ≤ pot d s.c + 1 ∧
         (phase (run d s (pumpOps n)).1.c).isConnected = true ∧ (run d s (pumpOps n)).1.w.waitOpen = false := by
-  intro s hl ha
+  intro s hl hd ha
   have hs := (run_sound d ops Sys.init (sinv_init d) hu).1
-  obtain ⟨n, hn, hc, hl', hst⟩ := pumpN_reaches_up d (pot d s.c) s.c (Nat.le_refl _) hs.core hl ha
+  obtain ⟨n, hn, hc, hl', hd', hst⟩ := pumpN_reaches_up d (pot d s.c) s.c (Nat.le_refl _) hs.core hl hd ha
   refine ⟨n, hn, ?_⟩
   have hs' := (run_sound d (pumpOps n) s hs (usage_pumpOps d n s)).1
   have hcore := run_pumpOps_core d n s
   have hph : (phase (run d s (pumpOps n)).1.c).isConnected = true := by
     rw [hcore]
-    rcases hc.linkSt hl' with ⟨_, _, h3⟩ | ⟨h1, _⟩
+    rcases hc.linkSt hl' hd' with ⟨_, _, h3⟩ | ⟨h1, _⟩
     · rw [hst] at h3; cases h3
     · simp only [phase, hl', h1, hst, if_true]; split <;> rfl
   refine ⟨hph, ?_⟩
@@ -195,7 +212,7 @@ theorem handshake_completes (d : Dev) (ops : List Op) (hu : usage d Sys.init ops
   · rfl
   · rcases hw hwo with h | h <;> rw [h] at hph <;> cases hph
 
-example : pot ⟨true, 2, 1, [true, false]⟩ (openLink true S.init).1 = 15 := by decide
+example : pot ⟨true, 2, 1, [true, false]⟩ (openLink .ok S.init).1 = 15 := by decide
 
 /-! ## The unrepaired code (counterexamples; the same scripts are replayed on the real code by `search()`) -/
 
@@ -208,13 +225,13 @@ theorem sync_open_hangs_counterexample :
     ¬ (∀ (d : Dev) (ops : List Op), usage d unrepairedD1 ops = true →
         (run d unrepairedD1 ops).1.w.waitOpen = true → (run d unrepairedD1 ops).1.c.link = true) := by
   intro h
-  exact absurd (h ⟨true, 0, 0, [true]⟩ [.syncOpen true, .deliver, .err] (by decide) (by decide)) (by decide)
+  exact absurd (h ⟨true, 0, 0, [true]⟩ [.syncOpen .ok, .deliver, .err] (by decide) (by decide)) (by decide)
 
 /-- D21: link error while the extended type of the only parameter is being fetched, then a second attempt on the
 same object: the stale fetcher and the new one both signal `connected`; the trace is not well formed. -/
 def staleFetcherOps : List Op :=
-  [.open true, .deliver, .deliver, .deliver, .deliver, .deliver, .deliver, .deliver, .work, .err,
-   .open true, .deliver, .deliver, .deliver, .deliver, .deliver, .deliver, .deliver, .work, .deliver]
+  [.open .ok, .deliver, .deliver, .deliver, .deliver, .deliver, .deliver, .deliver, .work, .err,
+   .open .ok, .deliver, .deliver, .deliver, .deliver, .deliver, .deliver, .deliver, .work, .deliver]
 
 theorem stale_fetcher_counterexample :
     usage ⟨true, 0, 0, [true]⟩ unrepairedD21 staleFetcherOps = true ∧
